@@ -810,7 +810,7 @@ func genC02(r *rand.Rand, tier string) []Case {
 	for i := 0; i < (n+3)/4; i++ {
 		cases = append(cases, genTinyCrashCase(r, false, 0), genTinyCrashCase(r, false, 0))
 	}
-	cases = append(cases, genHotKeyCrashCase(r, false), genShrinkCrashCase(r, 0), genDeleteTailCrashCase(r, false), genBigRecordSyncCase(r), genScratchCrashCase(r, false))
+	cases = append(cases, genHotKeyCrashCase(r, false), genShrinkCrashCase(r, 0), genDeleteTailCrashCase(r, false), genBigRecordSyncCase(r), genScratchCrashCase(r, false), genEmptyKeyDeleteCase(r))
 	return cases
 }
 
@@ -900,6 +900,16 @@ func genScratchCrashCase(r *rand.Rand, async bool) *c02Case {
 			c.Steps = append(c.Steps, dbStep{Op: "rotate"})
 		}
 	}
+	return c
+}
+
+// Delete accepts the empty key (Put does not): its record is in the log, recovery has to replay it
+func genEmptyKeyDeleteCase(r *rand.Rand) *c02Case {
+	keys := [][]byte{[]byte("a"), []byte("b")}
+	c := &c02Case{Keys: keys, NoAbs: true}
+	c.Opts = dbOpts{MemstoreBytes: 1 << 30, Threshold: 10, MaxSize: 5 << 30, RatioPct: 100, WBuf: 4096, RBuf: 4096}
+	c.Steps = append(c.Steps, dbStep{Op: "put", K: keys[0], V: []byte("v1")}, dbStep{Op: "del", K: []byte{}}, dbStep{Op: "put", K: keys[1], V: []byte("v2")},
+		dbStep{Op: "rotate"}, dbStep{Op: "delb", K: []byte{}, KNil: r.Intn(2) == 0}, dbStep{Op: "put", K: keys[0], V: []byte("v3")})
 	return c
 }
 
